@@ -45,6 +45,8 @@ EVENTS = {
     "sec_from_file": ["PF:secfile.conf"],
     "sec_from_stream": ["PS:" + "sec { x = 3 }\n"],
     "sec_bad_in_include": [b'sec { include("bad.conf") }\n'],
+    "unreadable_stream": ["PSE:0"],
+    "writeonly_stream": ["PSE:1"],
 }
 PROBES = [b"i = 5\n", b's = "str"\n', b"s = 'sq'\n", b"/* c */ i = 6\n", b"l = {7, 8}\n", b"sec { x = 9 }\n", b'm "t" { y = v }\n',
           b'include("good.conf")\n', b"i = x\n", b'"\n', b"*/ i = 7\n", b"'\n", b"f = 1.5\n", b"f = 2.5 i = 0x10\n",
@@ -60,6 +62,8 @@ def event_lines(ev, ctxno):
     for t in EVENTS[ev]:
         if isinstance(t, str) and t.startswith("PF:"):
             out.append("PF %d %s" % (ctxno, hx(t[3:])))
+        elif isinstance(t, str) and t.startswith("PSE:"):
+            out.append("PSE %d %s" % (ctxno, t[4:]))
         elif isinstance(t, str) and t.startswith("PS:"):
             out.append("PS %d %s" % (ctxno, hx(t[3:])))
         else:
